@@ -284,7 +284,7 @@ static long pagesz;
 static void ctx_init (ctx *c)
 {
   int i;
-  memset (c, 0, sizeof *c);
+  memset (c->Rinit, 0, sizeof c->Rinit);
   for (i = 0; i < NZ; i++) mpz_init (c->Z[i]);
   for (i = 0; i < NQ; i++) mpq_init (c->Q[i]);
   for (i = 0; i < NF; i++) mpf_init2 (c->F[i], 64);
@@ -697,7 +697,10 @@ static int do_call (ctx *c, char *s)
         case 'F': case 'J':
           for (j = 0; j < k; j++) if (A[j].ptr == a->ptr && strchr ("FJ", A[j].role)) break;
           if (j < k) break;
-          ob_putc (&c->out, ' '); put_f (&c->out, a->ptr); wf_f (a->tok, a->ptr); break;
+          ob_putc (&c->out, ' '); put_f (&c->out, a->ptr);
+          /* between mpf_set_prec_raw calls the size may legitimately exceed the lowered precision */
+          if (strcmp (name, "mpf_set_prec_raw")) wf_f (a->tok, a->ptr);
+          break;
         case '&':
           ob_printf (&c->out, " %ld", *(long *) a->ptr); break;
         case 'C':
